@@ -10,7 +10,7 @@ SPEC = {
     "nontrivial_ids": ["WAKENS_AFTER_POP"],
     "n_quick": 90, "n_thorough": 2500,
     "variants": {"h0": 55, "h2": 35, "asan": 10},
-    "rule": ("each evaluation is one process running `progs` barrier programs (N in {1,2,3,4,7,16,64,200}, up to "
+    "rule": ("each evaluation is one process running `progs` barrier programs (N in {1,2,3,4,7,16,64,200,1200,3000}, up to "
              "thousands of consecutive rounds by the same participants, stragglers mixed with racers, threads >> "
              "workers); each participant counts its arrival before the wait and checks arrived[k]==N, "
              "arrived[k+1]<=N and the serial indicator right after it. Non-trivial = at least one sleeper was popped "
@@ -19,7 +19,7 @@ SPEC = {
 
 
 def args(r, tier, v, nw):
-    n = r.choice([0, 0, 1, 2, 3, 4, 7, 16, 64, 200])
+    n = r.choice([0, 0, 1, 2, 3, 4, 7, 16, 64, 200, 1200, 3000])
     progs = 3 if tier == "quick" else 8
     return ["progs=%d" % progs, "n=%d" % n], "n%d" % n
 
